@@ -75,11 +75,20 @@ func ReadWithDirectory(r io.ReaderAt, size int64, cd []byte) (*Directory, error)
 	dirLoc := size - int64(len(cd))
 	files := make([]*File, 0)
 	for {
+		if len(cd) < 4 {
+			return nil, errors.New("truncated zip central directory")
+		}
 		if binary.LittleEndian.Uint32(cd) != directoryHeaderSignature {
 			break
 		}
+		if len(cd) < directoryHeaderLen {
+			return nil, errors.New("truncated zip central directory")
+		}
 		var hdr zipCentralDir
 		_ = binary.Read(bytes.NewReader(cd), binary.LittleEndian, &hdr)
+		if len(cd) < directoryHeaderLen+int(hdr.FilenameLen)+int(hdr.ExtraLen)+int(hdr.CommentLen) {
+			return nil, errors.New("truncated zip central directory")
+		}
 		f := &File{
 			CreatorVersion:   hdr.CreatorVersion,
 			ReaderVersion:    hdr.ReaderVersion,
